@@ -31,6 +31,8 @@ static size_t s_rootlen = 0;
 static FILE *s_j = NULL;
 static unsigned long s_n = 0;
 static unsigned char s_tracked[MAXFD];
+static unsigned char s_isman[MAXFD];   /* the descriptor is a MANIFEST-* file */
+static int s_only_manifest = 0;         /* faults are injected only into calls on MANIFEST descriptors */
 static int64_t s_off[MAXFD];
 /* faults */
 static long s_count = 0, s_failk = 0, s_fired = 0;
@@ -75,6 +77,8 @@ void io_shim_fail(long k, int persistent, int err, int classmask) {
   pthread_mutex_unlock(&s_mu);
 }
 
+void io_shim_fail_only_manifest(int on) { s_only_manifest = on; }
+
 void io_shim_clear(void) {
   pthread_mutex_lock(&s_mu);
   s_armed = 0; s_tripped = 0;
@@ -90,7 +94,7 @@ static int fault(int cls, const char *what, const char *path, int fd) {
   int e = 0;
   pthread_mutex_lock(&s_mu);
   s_count++;
-  if (s_armed && (s_mask & cls)) {
+  if (s_armed && (s_mask & cls) && (!s_only_manifest || (fd >= 0 && fd < MAXFD && s_isman[fd]))) {
     if (s_tripped && s_persist) e = s_err;
     else if (!s_tripped && s_count >= s_failk) { s_tripped = 1; e = s_err; }
     if (e) {
@@ -128,6 +132,7 @@ static int do_open(const char *path, int flags, mode_t mode) {
     struct stat st;
     s_tracked[fd] = 1;
     s_off[fd] = 0;
+    { const char *b = strrchr(path, '/'); b = b ? b + 1 : path; s_isman[fd] = strncmp(b, "MANIFEST-", 9) == 0; }
     if ((flags & O_APPEND) && syscall(SYS_fstat, fd, &st) == 0) s_off[fd] = st.st_size;
   }
   if (s_j) fprintf(s_j, "O %lu %d %d %d %d %s\n", ++s_n, lcdb_verif_tid(), fd, flags, fd < 0 ? e : 0, path + s_rootlen);
